@@ -36,6 +36,7 @@ RULE += (
          'some threads. ')
 RULE += ('Round 8: repeated structured-text format; nameless mutable expression values changed by the template. ')
 RULE += ('Round 9: statistics asked twice; a second thread compiles while the first renders (two preemptions over the whole package). ')
+RULE += ('Round 10: two-preemption sweeps on templates rendered to their end before; a sorting loop inside a loop. ')
 ASSUMPTIONS = [
     'preemption happens at Python line granularity inside the package; '
     'races inside one line or inside C code of dependencies are not explored',
@@ -111,6 +112,9 @@ CATALOGUE = [
     # values created by expressions without names, changed by the template
     '<dtml-let acc="[]"><dtml-in s3><dtml-call "acc.append(xi)"></dtml-in>'
     '<dtml-var "acc"></dtml-let>',
+    # a sorting loop rendered once per element of an enclosing loop
+    '<dtml-in s4><dtml-var xi>:<dtml-in s3 sort=va><dtml-var va>'
+    '<dtml-var xi> </dtml-in>|</dtml-in>',
     # loop variables computed on demand (statistics) asked more than once
     '<dtml-in s4><dtml-var xi><dtml-if total-xi>y<dtml-else>n</dtml-if>,'
     '<dtml-if sequence-end><dtml-var total-xi>|<dtml-var max-xi>|'
@@ -439,7 +443,7 @@ def plan(tier, seed):
         if tier == 'thorough':
             shards.append(dict(kind='cook-race', src=CATALOGUE[5],
                                ns=[1, 0], p1s=[p1], stride3=1))
-    for p1 in range(1, 13):
+    for p1 in range(1, 13 if tier == 'thorough' else 9):
         shards.append(dict(kind='cook-vs-render', src=LOOP_VARS, ns=[0, 1],
                            p1s=[p1], stride2=1))
         if tier == 'thorough':
